@@ -45,6 +45,28 @@ def run(tier, seed):
         seen.add(f["prop"])
         res["violations"].append({"scenario": "mu_mix", "seed": f["seed"], "oracle": f["prop"], "why": f["msg"],
                                   "trace_tail": f.get("tail", []), "key": "mu_mix:" + f["prop"]})
+    # wait re-acquisition paths (cv wait, signal/broadcast with transfer to the mutex queue, timeouts, cancellation)
+    for scen, envs in (("cv_mix", [{"VRT_MODE": 0}, {"VRT_MODE": 1}, {"VRT_MODE": 2}]),):
+        exe2, err = vrt_runner.build(scen)
+        if exe2 is None:
+            res["broken"].append({"what": "harness build failed (%s)" % scen, "detail": err})
+            continue
+        for env in envs:
+            n2 = 1500 if tier == "quick" else 30000
+            e2 = dict(env)
+            e2["VRT_QUIET"] = 1
+            rs2 = vrt_runner.run_many(exe2, range(base + 1, base + 1 + n2), e2)
+            a2, fails2 = vrt_runner.summarize(rs2)
+            nrun += n2
+            for k, v in a2.items():
+                agg[scen + "." + k] = agg.get(scen + "." + k, 0) + v
+            seen = set()
+            for f in fails2:
+                if f["prop"] in seen:
+                    continue
+                seen.add(f["prop"])
+                res["violations"].append({"scenario": scen, "env": env, "seed": f["seed"], "oracle": f["prop"], "why": f["msg"],
+                                          "trace_tail": f.get("tail", []), "key": scen + ":" + f["prop"]})
     uncovered = [s for s in mu_common.MODEL_SITES if str(s) not in sites]
     res["coverage"] = {"evaluations": nrun + nrep, "distinct_nontrivial": sum(1 for r in rs if r.get("stats", {}).get("futex_sleep", 0) > 0),
                        "rule": "mu_mix: 2..4 threads (+ late arrivals) x random sequences of lock/rlock/trylock/rtrylock sections, random "
